@@ -579,13 +579,128 @@ static int run_layout(uint64_t seed, int nsets, int maxperm, int nmodel) {
     return 0;
 }
 
+/* ------------------------------------------------------------------------------------------------------------------
+ * duplicate-key scenario (session 3): insertion sequences in which the same key occurs several times (also as a different
+ * but `=` key object: -0 for +0, a fresh tuple), with nil keys / values and NaN keys interspersed, any announced count,
+ * replace = 1 (janet_struct_put) or 0 (struct/proto-flatten).  Direct oracle: the finished struct must be bit for bit the
+ * struct of the final key->value map (first key object, last / first value) built in several orders; lookups return the
+ * winning value.  The first <nmodel> cases are printed for the Lean model (structOfCount / structOfCountKeep / finalMap). */
+static int is_nan_key(Janet k) { return janet_checktype(k, JANET_NUMBER) && janet_unwrap_number(k) != janet_unwrap_number(k); }
+
+static int run_dups(uint64_t seed, int ncases, int nmodel) {
+    sm_state = seed;
+    JanetTable *env = g_env = janet_core_env(NULL);
+    janet_gcroot(janet_wrap_table(env));
+    Janet structfn = janet_wrap_nil();
+    janet_resolve(env, janet_csymbol("struct"), &structfn);
+    cands = malloc(sizeof(Cand) * 4096); ncand = 0;
+    for (int i = -40; i <= 300; i++) add_cand(janet_wrap_number(i));
+    for (int i = 0; i < 60; i++) add_cand(janet_wrap_number(i + 0.5));
+    for (int i = 0; i < 200; i++) { char b[16]; snprintf(b, sizeof b, "k%d", i); add_cand(janet_cstringv(b)); add_cand(janet_ckeywordv(b)); }
+    for (int i = 0; i < 40; i++) { Janet e[2] = { janet_wrap_number(i % 7), janet_ckeywordv(i & 1 ? "p" : "q") }; add_cand(janet_wrap_tuple(janet_tuple_n(e, 1 + (i & 1)))); }
+    long builds = 0, under = 0, keep = 0, dupputs = 0, aliasputs = 0, ignored = 0, nanputs = 0, lang = 0, maxmult = 0;
+    long lenhist[24] = {0};
+    for (int cs = 0; cs < ncases; cs++) {
+        int n = 2 + (int)(sm_next() % 6);                 /* distinct keys 2..7 */
+        int m = n + (int)(sm_next() % (uint64_t)(n + 3));  /* puts */
+        if (m > 20) m = 20;
+        int32_t capg = janet_tablen(2 * m);
+        int idx[8], got = 0, mode = (int)(sm_next() % 3);
+        uint32_t b = (uint32_t)(sm_next() % (uint64_t) capg);
+        int tries = 0;
+        while (got < n) {
+            int c = (int)(sm_next() % (uint64_t) ncand); tries++;
+            if (mode && tries < 100000) {
+                uint32_t home = (uint32_t) cands[c].h & (uint32_t)(capg - 1);
+                if (((home + capg - b) & (uint32_t)(capg - 1)) >= (uint32_t)(mode + 1)) continue;
+            }
+            int dup = 0; for (int q = 0; q < got; q++) if (janet_equals(cands[idx[q]].k, cands[c].k)) dup = 1;
+            if (!dup) idx[got++] = c;
+        }
+        int r = (sm_next() % 5) ? 1 : 0;
+        Janet ks[24], vs[24]; int mult[8] = {0};
+        for (int i = 0; i < m; i++) {
+            int which = i < n ? i : (int)(sm_next() % (uint64_t) n);        /* every key at least once, then repeats */
+            if (i >= n) dupputs++;
+            Janet k = cands[idx[which]].k;
+            mult[which]++; if (mult[which] > maxmult) maxmult = mult[which];
+            /* a different but equal key object */
+            if (janet_checktype(k, JANET_NUMBER) && janet_unwrap_number(k) == 0 && (sm_next() & 1)) { k = janet_wrap_number(-0.0); aliasputs++; }
+            else if (janet_checktype(k, JANET_TUPLE) && (sm_next() & 1)) { const Janet *t = janet_unwrap_tuple(k); k = janet_wrap_tuple(janet_tuple_n(t, janet_tuple_length(t))); aliasputs++; }
+            ks[i] = k; vs[i] = janet_wrap_number(100 + i);
+            uint64_t roll = sm_next() % 24;
+            if (roll == 0) { vs[i] = janet_wrap_nil(); ignored++; }
+            else if (roll == 1) { ks[i] = janet_wrap_nil(); ignored++; }
+            else if (roll == 2) { ks[i] = janet_wrap_number(0.0 / 0.0); nanputs++; }
+        }
+        /* shuffle the sequence (so that first occurrences are not always in front) */
+        for (int i = m - 1; i > 0; i--) { int j = (int)(sm_next() % (uint64_t)(i + 1)); Janet t = ks[i]; ks[i] = ks[j]; ks[j] = t; t = vs[i]; vs[i] = vs[j]; vs[j] = t; }
+        int accepted = 0;
+        for (int i = 0; i < m; i++) if (!janet_checktype(ks[i], JANET_NIL) && !janet_checktype(vs[i], JANET_NIL) && !is_nan_key(ks[i])) accepted++;
+        int c = m + (int)(sm_next() % 4);
+        int isunder = 0;
+        if (sm_next() % 6 == 0 && accepted > 1) { c = 1 + (int)(sm_next() % (uint64_t)(accepted - 1)); isunder = 1; under++; }
+        if (!r) keep++;
+        JanetKV *sb = janet_struct_begin(c);
+        for (int i = 0; i < m; i++) janet_struct_put_ext(sb, ks[i], vs[i], r);
+        const JanetKV *st = janet_struct_end(sb);
+        janet_gcroot(janet_wrap_struct(st));
+        builds++;
+        if (cs < nmodel) {
+            printf("dcase %d %d %d %d\n", r, c, m, isunder);
+            for (int i = 0; i < m; i++) { fputs("dkv ", stdout); ser(ks[i], 0); putchar(' '); ser(vs[i], 0); putchar('\n'); }
+            fputs("dref ", stdout); ser(janet_wrap_struct(st), 0); putchar('\n');
+        }
+        /* independent final map */
+        Janet fk[24], fv[24]; int fn = 0;
+        for (int i = 0; i < m; i++) {
+            if (janet_checktype(ks[i], JANET_NIL) || janet_checktype(vs[i], JANET_NIL) || is_nan_key(ks[i])) continue;
+            int at = -1; for (int q = 0; q < fn; q++) if (janet_equals(fk[q], ks[i])) at = q;
+            if (at < 0) { if (!isunder || fn < c) { fk[fn] = ks[i]; fv[fn] = vs[i]; fn++; } }   /* under-announced: extra NEW keys are dropped … */
+            else if (r && (!isunder || fn < c)) fv[at] = vs[i];                                /* … and so is a replacing put once the struct is full */
+        }
+        lenhist[fn < 24 ? fn : 23]++;
+        if (janet_struct_length(st) != fn) law("dups-length", cs, janet_struct_length(st), fn, "");
+        for (int q = 0; q < fn; q++) {
+            Janet g = janet_struct_get(st, fk[q]);
+            if (bits_of(g) != bits_of(fv[q])) law("dups-winning-value", cs, q, r, "");
+        }
+        int ord[24]; for (int i = 0; i < fn; i++) ord[i] = i;
+        for (int rep = 0; rep < 4; rep++) {
+            if (rep == 1) for (int i = 0; i < fn / 2; i++) { int t = ord[i]; ord[i] = ord[fn - 1 - i]; ord[fn - 1 - i] = t; }
+            if (rep >= 2) for (int i = fn - 1; i > 0; i--) { int j = (int)(sm_next() % (uint64_t)(i + 1)), t = ord[i]; ord[i] = ord[j]; ord[j] = t; }
+            const JanetKV *ref = build_order(fk, fv, ord, fn);
+            builds++;
+            if (!same_slots(ref, st) || janet_struct_hash(ref) != janet_struct_hash(st) || !janet_equals(janet_wrap_struct(ref), janet_wrap_struct(st)) ||
+                janet_compare(janet_wrap_struct(ref), janet_wrap_struct(st)) != 0)
+                law("dups-final-map", cs, rep, r, isunder ? "under-announced" : "");
+        }
+        /* the language-level constructor (announces the number of pairs) */
+        if (r && !isunder && janet_checktype(structfn, JANET_CFUNCTION)) {
+            Janet args[48];
+            for (int i = 0; i < m; i++) { args[2 * i] = ks[i]; args[2 * i + 1] = vs[i]; }
+            Janet res = janet_unwrap_cfunction(structfn)(2 * m, args);
+            lang++;
+            if (!janet_checktype(res, JANET_STRUCT) || !same_slots(janet_unwrap_struct(res), st)) law("dups-struct-constructor", cs, -1, -1, "");
+        }
+        janet_gcunroot(janet_wrap_struct(st));
+        if ((cs & 31) == 31) collect();
+    }
+    printf("summary dups cases %d builds %ld replace0 %ld under_announced %ld repeated_puts %ld alias_key_puts %ld ignored_nil_puts %ld nan_key_puts %ld struct_constructor %ld max_multiplicity %ld violations %ld mapsizes",
+           ncases, builds, keep, under, dupputs, aliasputs, ignored, nanputs, lang, maxmult, nviol);
+    for (int i = 0; i <= 8; i++) printf(" %d:%ld", i, lenhist[i]);
+    putchar('\n');
+    return 0;
+}
+
 int main(int argc, char **argv) {
     janet_init();
     int rc;
     if (argc >= 3 && !strcmp(argv[1], "pool")) rc = run_pool(argv[2]);
     else if (argc >= 5 && !strcmp(argv[1], "symcache")) rc = run_symcache(strtoull(argv[2], NULL, 10), atoi(argv[3]), atoi(argv[4]));
+    else if (argc >= 5 && !strcmp(argv[1], "dups")) rc = run_dups(strtoull(argv[2], NULL, 10), atoi(argv[3]), atoi(argv[4]));
     else if (argc >= 6 && !strcmp(argv[1], "layout")) rc = run_layout(strtoull(argv[2], NULL, 10), atoi(argv[3]), atoi(argv[4]), atoi(argv[5]));
-    else { printf("usage: pool <script> | symcache <seed> <rounds> <n> | layout <seed> <sets> <maxperm> <nmodel>\n"); rc = 2; }
+    else { printf("usage: pool <script> | symcache <seed> <rounds> <n> | layout <seed> <sets> <maxperm> <nmodel> | dups <seed> <cases> <nmodel>\n"); rc = 2; }
     fflush(stdout);
     return rc;
 }
